@@ -360,9 +360,11 @@ def handle (line : String) : String :=
     -- answers `shown/received` (shown `-` when nothing was drawn yet) at every sample
     let step := fun (st : Term.Loop × List String) (tok : String) =>
       match tok.toList with
-      | ['S'] => (st.1, (match st.1.shown with
+      | ['S'] =>
+        let shown := match st.1.shown with
           | some n => toString n
-          | none => "-") ++ "/" ++ toString st.1.received :: st.2)
+          | none => "-"
+        (st.1, (shown ++ "/" ++ toString st.1.received) :: st.2)
       | c :: rest =>
         match (String.ofList rest).splitOn ":" with
         | [a, b] =>
